@@ -1627,13 +1627,22 @@ func (m *c17M) invoke(target *c17Fn, args []c17V, sig *types.Signature) c17V {
 // ---------------------------------------------------------------------------
 
 // c17Clusters segments the test alphabet into grapheme clusters: a base rune
-// followed by any number of U+0301 / U+FE0F (UAX #29 GB9: do not break before Extend).
+// followed by any number of U+0301 / U+FE0F (UAX #29 GB9: do not break before Extend); two regional
+// indicators form one flag (GB12/GB13).
 func c17Clusters(s string) []string {
 	var out []string
+	isRI := func(r rune) bool { return r >= 0x1F1E6 && r <= 0x1F1FF }
 	for _, r := range s {
 		if (r == 0x301 || r == 0xFE0F) && len(out) > 0 {
 			out[len(out)-1] += string(r)
 			continue
+		}
+		// GB12/GB13: regional indicators pair up into flags
+		if isRI(r) && len(out) > 0 {
+			if last := []rune(out[len(out)-1]); len(last) == 1 && isRI(last[0]) {
+				out[len(out)-1] += string(r)
+				continue
+			}
 		}
 		out = append(out, string(r))
 	}
@@ -1642,7 +1651,7 @@ func c17Clusters(s string) []string {
 
 func c17ClusterWidth(cl string) int {
 	r, _ := utf8.DecodeRuneInString(cl)
-	if r >= 0x2E80 && r <= 0x9FFF {
+	if (r >= 0x2E80 && r <= 0x9FFF) || (r >= 0x1F1E6 && r <= 0x1F1FF) {
 		return 2
 	}
 	return 1
@@ -2368,7 +2377,7 @@ func c17SemTextField(c *Ctx, m *c17M, ty *c17Types) {
 	// typed text
 	{
 		v := &c17Verdict{}
-		for _, txt := range []string{"x", "世", "e\u0301", "xy"} {
+		for _, txt := range []string{"x", "世", "e\u0301", "xy", "\U0001F1FA\U0001F1F8"} {
 			r, _ := utf8.DecodeRuneInString(txt)
 			runKey(v, mkKey(int64(r), 0, txt, press), fmt.Sprintf("typed %q", txt), "insert", txt)
 		}
@@ -2465,7 +2474,7 @@ func c17CountingFuncs(c *Ctx, m *c17M, pkgName string) map[*types.Func]bool {
 			continue
 		}
 		good := true
-		for _, s := range []string{"", "a", "ab", "a世c", "e\u0301b", "e\u0301", "世世世世"} {
+		for _, s := range []string{"", "a", "ab", "a世c", "e\u0301b", "e\u0301", "世世世世", "a\U0001F1FA\U0001F1F8b"} {
 			var ret []c17V
 			ab := m.run(func() { ret = m.callDecl(fi, nil, []c17V{c17S(s)}) })
 			if ab != nil || len(ret) != 1 || ret[0].k != c17Int || ret[0].i != int64(len(c17Clusters(s))) {
@@ -2616,7 +2625,7 @@ func c17SemTextInput(c *Ctx, m *c17M, ty *c17Types) {
 	}
 	{
 		v := &c17Verdict{}
-		for _, txt := range []string{"x", "世", "e\u0301", "xy"} {
+		for _, txt := range []string{"x", "世", "e\u0301", "xy", "\U0001F1FA\U0001F1F8"} {
 			runOne(v, mkKey(txt, txt, press), fmt.Sprintf("typed %q", txt), "insert", txt)
 		}
 		runOne(v, mkKey("Shift+X", "X", press), `typed "X" with Shift`, "insert", "X")
@@ -2631,35 +2640,77 @@ func c17SemTextInput(c *Ctx, m *c17M, ty *c17Types) {
 		runOne(v, mkKey("x", "x", release), "release of x", "none", "")
 		v.record(c, rule, up.Name+"/release changes nothing, chords keep the cursor within the text", up.Decl.Pos(), "release ignored; unbound chords keep the invariant")
 	}
-	// paste brackets: keys of type paste accumulate, the end event inserts the text once, a second end event inserts nothing
+	// paste brackets: (PasteStart,) keys of type paste accumulate, the end event inserts the text once at the cursor and
+	// advances the cursor by its grapheme clusters (not runes, not bytes), a second end event inserts nothing, and a
+	// second paste (buffer reuse) behaves like the first. Payloads carry wide, multi-codepoint and flag graphemes, also
+	// split over several keys; every cursor position of every content of the domain is a start state.
 	if okPaste && ty.pasteEndT != nil && fields["paste"] {
+		const flag = "\U0001F1FA\U0001F1F8"
+		payloads := [][]string{
+			{"x世", "y"},
+			{"e\u0301"},
+			{"e", "\u0301"}, // one grapheme delivered as two pasted keys
+			{"a", "e\u0301", "世"},
+			{flag},
+			{"e\u0301" + flag + "z"},
+			{"世e\u0301"},
+		}
+		end := m.zero(ty.pasteEndT, 0)
+		end.typ = ty.pasteEndT
+		var startEv *c17V
+		if st := c17Named(vx, "PasteStartEvent"); st != nil {
+			ev := m.zero(st, 0)
+			ev.typ = st
+			startEv = &ev
+		}
 		v := &c17Verdict{}
-		eachState(func(ct string, cur int) {
-			p := newModel(ct, cur)
-			ctx := fmt.Sprintf("content=%q cursor=%d, paste of \"x世\" then \"y\"", ct, cur)
-			start := c17Ed{cl: c17Clusters(ct), cur: cur}
-			step := func(ev c17V, want c17Ed, what string) bool {
-				_, _, ab := m.c17Call(up, p, ev)
-				v.runs++
-				if v.abort(ab, ctx+" ("+what+")") {
-					return false
+		for pi, pl := range payloads {
+			second := payloads[(pi+1)%len(payloads)]
+			eachState(func(ct string, cur int) {
+				p := newModel(ct, cur)
+				ctx := fmt.Sprintf("content=%q cursor=%d, paste of %q", ct, cur, strings.Join(pl, ""))
+				ed := c17Ed{cl: c17Clusters(ct), cur: cur}
+				step := func(ev c17V, want c17Ed, what string) bool {
+					_, _, ab := m.c17Call(up, p, ev)
+					v.runs++
+					if v.abort(ab, ctx+" ("+what+")") {
+						return false
+					}
+					if d := cmp(p, want, false); d != "" {
+						v.fail("%s (%s): %s", ctx, what, d)
+						return false
+					}
+					return true
 				}
-				if d := cmp(p, want, false); d != "" {
-					v.fail("%s (%s): %s", ctx, what, d)
-					return false
+				pasteOnce := func(keys []string, tag string) bool {
+					if startEv != nil && !step(*startEv, ed, tag+"paste start must not edit") {
+						return false
+					}
+					for _, k := range keys {
+						r, _ := utf8.DecodeRuneInString(k)
+						if !step(mkKey(string(r), k, paste), ed, tag+"a pasted key must not edit before the paste ends") {
+							return false
+						}
+					}
+					ed = ed.apply("insert", strings.Join(keys, ""))
+					return step(end, ed, tag+"paste end inserts the text once and advances the cursor by its graphemes") &&
+						step(end, ed, tag+"a second paste end inserts nothing")
 				}
-				return true
-			}
-			end := m.zero(ty.pasteEndT, 0)
-			end.typ = ty.pasteEndT
-			after := start.apply("insert", "x世y")
-			_ = step(mkKey("x", "x世", paste), start, "first pasted key must not edit yet") &&
-				step(mkKey("y", "y", paste), start, "second pasted key must not edit yet") &&
-				step(end, after, "paste end inserts the pasted text once at the cursor") &&
-				step(end, after, "a second paste end inserts nothing") &&
-				step(mkKey("z", "z", press), after.apply("insert", "z"), "typing after a paste")
-		})
-		v.record(c, rule, up.Name+"/paste brackets insert the pasted text exactly once", up.Decl.Pos(), "pasted keys accumulate, PasteEndEvent inserts them once and clears the buffer")
+				if !pasteOnce(pl, "") {
+					return
+				}
+				ed = ed.apply("insert", "z")
+				if !step(mkKey("z", "z", press), ed, "the character typed after the paste lands at the cursor") {
+					return
+				}
+				if !pasteOnce(second, fmt.Sprintf("second paste of %q: ", strings.Join(second, ""))) {
+					return
+				}
+				ed = ed.apply("insert", "q")
+				step(mkKey("q", "q", press), ed, "the character typed after the second paste lands at the cursor")
+			})
+		}
+		v.record(c, rule, up.Name+"/paste brackets insert the pasted text exactly once", up.Decl.Pos(), "pasted keys accumulate, PasteEndEvent inserts them once at the cursor, advances by graphemes and clears the buffer; a second paste behaves the same")
 	}
 	// SetContent, String, CursorPosition
 	if sc := c.P.Func(pkgName + ".(*Model).SetContent"); sc != nil {
@@ -3379,7 +3430,7 @@ func c17RuleA(c *Ctx, m *c17M) {
 		c.undecided(rule, pkgName+"/grapheme counting helper", tfT.(*types.Named).Obj().Pos(), "no function of the package evaluates to the number of grapheme clusters of its argument on the test strings; n = f(Value) cannot be recognised")
 	} else {
 		for fn := range a.counting {
-			c.ok(rule, pkgName+"."+fn.Name()+"/returns the number of grapheme clusters", fn.Pos(), "interpreted on 7 strings (empty, narrow, wide, multi-codepoint): equals the cluster count")
+			c.ok(rule, pkgName+"."+fn.Name()+"/returns the number of grapheme clusters", fn.Pos(), "interpreted on 8 strings (empty, narrow, wide, multi-codepoint, flag): equals the cluster count")
 		}
 	}
 	for _, fi := range c.P.FuncsIn(pkgName) {
